@@ -211,8 +211,10 @@ ReturnedEv ==
   /\ UNCHANGED <<c, status, alive, execs, lastOK, created, rwait, initst, checked, pastCheck, stopped, pastCreate, attAtStop,
                  completedAtStop, sigs, killRound, timedOut, hlog, hst, nruns, facts>>
 
+\* the run could make no progress any more (nothing executing, nothing launchable): which guarantee that breaks depends on the run
 StuckEv == /\ E.ev = "Stuck"
-           /\ viol' = viol \cup {"C10_RetryNeverEnds"}
+           /\ viol' = viol \cup (IF "init" \in DOMAIN c THEN {"C10_RetryNeverEnds"}
+                                 ELSE IF c.maxActive > 0 THEN {"C15_LimitPreventsCompletion"} ELSE {"C02_RunNeverEnds"})
            /\ stopped' = TRUE /\ completedAtStop' = FALSE          \* the driver cancels the stuck run right after
            /\ UNCHANGED <<c, status, alive, execs, lastOK, created, rwait, initst, checked, pastCheck, pastCreate, attAtStop,
                           sigs, killRound, timedOut, hlog, hst, returned, nruns, facts>>
